@@ -43,8 +43,13 @@ def view_case(args):
     data = bytearray()
     want = []
     page = 0
+    family = fmt
     for n in counts:
         for ff in ffs:
+            # family "mixed": every packet has its own data format (the layout is a property of the packet, not of the file / batch)
+            fmt = family if family in (0, 2) else rng.choice([0, 2])
+            if fmt == 0 and n > 620:
+                fmt = 2
             ws, _ = body_words(rng, max(n, 3)) if n >= 3 else ([its.ihw(0x1FF), its.tdh(0x803, 1, 1, 0, 0, ORBIT)][:n], None)
             pl = payload(ws, fmt, ff if fmt == 2 else 0)
             off = len(data)
@@ -57,7 +62,7 @@ def view_case(args):
     write_file(path, bytes(data))
     r = obs.run(exe, [path, "view", "its-readout-frames-data", "-d"], workdir=wd, tag="v%d" % case)
     os.unlink(path)
-    out = dict(case=case, viol=None, events=0, keys=set((fmt, min(n, 50), ff) for n in counts for ff in ffs))
+    out = dict(case=case, viol=None, events=0, keys=set((family, min(n, 50), ff) for n in counts for ff in ffs))
     rows = [(o, k if k == "RDH" else None, b) for o, k, b, _ in obs.parse_frames_view(r.stdout)]
     out["events"] = len(rows)
     what = None
@@ -71,8 +76,8 @@ def view_case(args):
                 what = "row %d: view shows %s, expected %s" % (i, g, w)
                 break
     if what:
-        d = save_replay("C12", "view%d" % case, {"input.raw": bytes(data), "stdout.txt": r.stdout, "stderr.txt": r.stderr}, dict(seed=seed, case=case, fmt=fmt, counts=counts, ffs=ffs, what=what))
-        out["viol"] = ("cut:view:%s" % what.split(":")[0], "format %d, word counts %s, 0xFF runs %s: %s" % (fmt, counts[:5], ffs[:5], what), d)
+        d = save_replay("C12", "view%d" % case, {"input.raw": bytes(data), "stdout.txt": r.stdout, "stderr.txt": r.stderr}, dict(seed=seed, case=case, fmt=family, counts=counts, ffs=ffs, what=what))
+        out["viol"] = ("cut:view:%s" % what.split(":")[0], "format %s, word counts %s, 0xFF runs %s: %s" % (family, counts[:5], ffs[:5], what), d)
     return out
 
 
@@ -133,7 +138,9 @@ def check_case(args):
     path = os.path.join(wd, "k%d.raw" % case)
     write_file(path, bytes(data))
     mode = rng.choice(["all_its", "sanity_its", "all_its_stave"])
-    r = obs.run(exe, [path] + obs.MODES[mode], workdir=wd, stats="json", tag="k%d" % case)
+    # the verdict may not depend on what is logged or displayed
+    vopt = rng.choice([[], [], ["-v", "0"], ["-v", "2"], ["-m"], ["-v", "0", "-m"]])
+    r = obs.run(exe, [path] + obs.MODES[mode] + vopt, workdir=wd, stats="json", tag="k%d" % case)
     os.unlink(path)
     what = None
     if r.abnormal() or r.stats is None:
@@ -158,7 +165,7 @@ def check_case(args):
                     break
         if not what:
             for lo, hi in clean_ranges:
-                inside = [m for m in msgs if lo <= m.offset < hi and m.code in ("41", "30", "40")]
+                inside = [m for m in msgs if lo <= m.offset < hi and m.code in ("41", "30", "40", "441", "442", "443", "991", "990", "992", "70")]
                 if inside:
                     what = "reset: the packet after an over-padded payload was not judged from the initial state: %s" % inside[0].text[:100]
                     break
@@ -208,12 +215,12 @@ def run(res):
     jobs = []
     c = 0
     counts_all = list(range(0, 41)) + [64, 99, 100, 101, 511, 512, 700] if quick else list(range(0, 701))
-    for fmt in (0, 2):
+    for fmt in (0, 2, "mixed"):
         for i in range(0, len(counts_all), 8):
-            counts = [n for n in counts_all[i:i + 8] if fmt == 2 or n <= 620]    # 16-byte slots: 620 words is the largest payload below the 10 000 byte limit
+            counts = [n for n in counts_all[i:i + 8] if fmt != 0 or n <= 620]    # 16-byte slots: 620 words is the largest payload below the 10 000 byte limit
             if not counts:
                 continue
-            ffs = list(range(0, 16)) if fmt == 2 else [0]
+            ffs = list(range(0, 16)) if fmt != 0 else [0]
             if max(counts) > 60:
                 for n in counts:
                     jobs.append((exe, wd, res.seed, c, fmt, [n], ffs if n < 600 else [f for f in ffs if 10 * n + f <= 9900]))
@@ -235,7 +242,7 @@ def run(res):
             res.violation(*o["viol"])
         res.nontrivial |= o["keys"]
     d8_witness(res, exe, wd)
-    res.rule = ("formats {0,2} x word counts (0..40 + samples quick, 0..700 thorough) x trailing 0xFF runs 0..40 (in-process) / 0..15 (views) / 16..40 (over-padding in checks); "
+    res.rule = ("formats {0, 2, mixed per packet} x word counts (0..40 + samples quick, 0..700 thorough) x trailing 0xFF runs 0..40 (in-process) / 0..15 (views) / 16..40 (over-padding in checks); "
                 "non-trivial = distinct (format, word count class, 0xFF run) cell compared")
     res.samples = ["format 2, 5 words + 9 x 0xFF", "format 2, 5 words + 10 x 0xFF", "format 2, 7 words + 16 x 0xFF -> one Payload error", "format 0, 33 words",
                    "TDT(packet_done=0) | over-padded payload | IHW TDH(cont=0): no [E41]"]
